@@ -1157,7 +1157,10 @@ class Session:
                 self.send_command(SMP_Signing_Information_Command(signature_key=csrk))
 
             # CTKD, calculate BR/EDR link key
-            if self.initiator_key_distribution & KeyDistribution.LINK_KEY:
+            # (only an LTK generated by Secure Connections can be converted: with
+            # legacy pairing each side has its own LTK, so they would not derive
+            # the same link key)
+            if self.sc and self.initiator_key_distribution & KeyDistribution.LINK_KEY:
                 self.link_key = self.derive_link_key(self.ltk, self.ct2)
 
         else:
@@ -1195,8 +1198,8 @@ class Session:
             if self.responder_key_distribution & KeyDistribution.SIGN_KEY:
                 self.send_command(SMP_Signing_Information_Command(signature_key=csrk))
 
-            # CTKD, calculate BR/EDR link key
-            if self.responder_key_distribution & KeyDistribution.LINK_KEY:
+            # CTKD, calculate BR/EDR link key (Secure Connections only, see above)
+            if self.sc and self.responder_key_distribution & KeyDistribution.LINK_KEY:
                 self.link_key = self.derive_link_key(self.ltk, self.ct2)
 
     def compute_peer_expected_distributions(self, key_distribution_flags: int) -> None:
